@@ -4,6 +4,7 @@ import (
 	"bytes"
 	"encoding/json"
 	"fmt"
+	"reflect"
 	"testing"
 
 	"github.com/Breeze0806/gobinlog/replication"
@@ -162,6 +163,9 @@ func checkRowsCase(c *RowsCase) error {
 			if err := walkImage(t, tm, presB, ev.Rows[r].Before, got.Identify, fmt.Sprintf("row %d before", r)); err != nil {
 				return err
 			}
+			if !bytes.Equal(got.Identify, img) {
+				return fmt.Errorf("row %d: decoding the cells of the before image changed the image", r)
+			}
 		}
 		if hasAfter {
 			img, nulls := valuesOnly(t, presA, ev.Rows[r].After)
@@ -174,7 +178,24 @@ func checkRowsCase(c *RowsCase) error {
 			if err := walkImage(t, tm, presA, ev.Rows[r].After, got.Data, fmt.Sprintf("row %d after", r)); err != nil {
 				return err
 			}
+			if !bytes.Equal(got.Data, img) {
+				return fmt.Errorf("row %d: decoding the cells of the after image changed the image", r)
+			}
 		}
+	}
+	// the accessors are functions of the event: asked again they answer the same, and what they
+	// answered before is still what it was
+	want, _ := json.Marshal(rows)
+	var tm2 *replication.TableMap
+	var rows2 replication.Rows
+	if err := guard(func() (e error) { tm2, e = tmEv.TableMap(f); return }); err != nil || !reflect.DeepEqual(tm, tm2) {
+		return fmt.Errorf("TableMap() of the same event a second time: %+v (err %v), the first time %+v", tm2, err, tm)
+	}
+	if err := guard(func() (e error) { rows2, e = rowsEv.Rows(f, tm); return }); err != nil || !reflect.DeepEqual(rows, rows2) {
+		return fmt.Errorf("Rows() of the same event a second time differs from the first (err %v)", err)
+	}
+	if now, _ := json.Marshal(rows); !bytes.Equal(now, want) {
+		return fmt.Errorf("the first Rows() result changed when Rows() was called again")
 	}
 	return nil
 }
